@@ -10,6 +10,7 @@ EXPLANATION = ("C07: responses are delivered only after a successful lookup of t
                "parked and is clamped to the survey deadline; the respondent side records and clears its routing state like "
                "rep0 and obeys the shared hop-loop facts.")
 EXPLANATION += ' Round 5: the deadline clamp covers the absolute-expiry mode of an aio (R7).'
+EXPLANATION += " Round 6: the deadline is computed from the surveying context's own survey time, not from the socket's own context (R9 = C12.R4b); unmatched responses are discarded without closing the pipe and the respondent's routing state is written only on the receive path (SR9, SR10)."
 
 is_call = c04.is_call
 fld = c04.fld
